@@ -16,16 +16,20 @@ func init() {
 		ID:    "C06",
 		Title: "Truncated or damaged PBF input ends in an error after a correct prefix",
 		Explanation: "Structural necessary conditions, decided for every call site / index expression / path in package osmpbf. The rules work on roles, on the control-flow graph (guard facts, dominance) and by finite-domain evaluation of decision functions, following static calls inside the package; the shape of the code (if chain vs switch, branch order, merged guards, locals, extracted helpers) does not matter. " +
-			"(E1) no error returned by a callee is dropped: on every path it is tested, returned or forwarded before being overwritten; wherever a protoscan message's Next() reports no further field, every path looks at its Err() before leaving (in the function or, for a message parameter, in every caller); " +
+			"(E1) no error returned by a callee is dropped: on every path it is tested, returned or forwarded before being overwritten; wherever a protoscan message's Next() reports no further field, every path looks at its Err() before leaving (in the function or, for a message parameter, in every caller; when Next() sits to the right of other operands in the loop condition, e.g. `err == nil && msg.Next()`, those operands are known to hold on that outcome); " +
 			"(E2) io.EOF can only originate from the first read of a block: the io.EOF of any other io.ReadFull (evaluated on the abstract value io.EOF through mappers, inline tests and intermediate callers) cannot reach the caller of the block reader unchanged; " +
 			"(E3) every slice `buf[:n]` of a scratch buffer made with a constant size (followed through parameters and re-slices) is reached only when guard facts, at the slice or at every success return of the function n comes from, establish n <= a constant not above the buffer's size and, for signed n, n >= 0; " +
 			"(E4) a blob that carries data in none of the supported encodings only reaches returns of a non-nil error; on the zlib path the decompressed length is compared with raw_size before data is returned, and that length is the length of the whole decompressed stream: the call that drains the decompressor reads the decompressor itself, not a wrapper limited to raw_size or less (also when the zlib branch is a helper that is handed the getter results as parameters); " +
-			"(E5) a header is only accepted through the required-features gate (which may live in a helper); when the reader finds a block whose type is not OSMData, every path sends (or returns to the sending caller) a pair whose Err holds an error created for it and which carries no blob, no path skips the block; " +
-			"(E6) every slice/string index or slice expression reachable from the decoding goroutines has a proof from the idiom list (constant, range key, guard facts establishing index < len with a non-negative index, counter into a buffer sized by Iterator.Count of the iterator driving the loop), optional message fields are nil-guarded or `required`; " +
+			"(E5) a header is only accepted through the required-features gate: a loop over all required features (range or index loop, in the header decoder or a helper) whose failed capability lookup returns an error, or reports the feature through result values with which every caller, evaluated on those values, returns an error; when the reader finds a block whose type is not OSMData, every path sends (or returns to the sending caller) a pair whose Err holds an error created for it and which carries no blob, no path skips the block; " +
+			"(E6) every slice/string index or slice expression reachable from the decoding goroutines has a proof from the idiom list (constant, range key, guard facts establishing index < len with a non-negative index — also facts from the operands to the left in a short-circuit condition —, a constant index under a guard on the length, counter into a buffer sized by Iterator.Count of the iterator driving the loop; for x[lo:hi]: constant bounds within a fixed-length array, bounds established by guard facts 0 <= lo <= hi <= len/cap, a constant bound under a guard on the length, and the protoscan cursor invariant 0 <= I.Index <= len(I.Data) for I.Data[I.Index:] of one and the same iterator), optional message fields are nil-guarded or `required`; " +
 			"(E7) no panic call and no unchecked type assertion is reachable from the goroutine roles; " +
-			"(E8) with a stored error other than io.EOF, no return of Err that can be reached yields a possibly-nil value; " +
+			"(E8) with a stored error other than io.EOF, no return of Err that can be reached yields a possibly-nil value (locals holding the stored error or another value are followed path by path); " +
 			"(E9) the cached block's string table and parameters are reset before every block (shared with C01.R3), so the range checks of string references run against the block being decoded and a block without a string table is rejected instead of borrowing the previous block's strings. " +
 			"(E10) while one DenseNodes / Way / Relation message is decoded no iterator left over from an earlier group can be used (shared with C01.R2): a damaged group that lacks a mandatory column (ids, lat, lon) ends in the 'did not contain' error instead of being decoded from the previous group's column, because presence is established by state set while this message is scanned and not by cached fields that survive groups. " +
+			"(E11) every make of a slice or map whose size derives from a quantity decoded from the input (generated getters and fields of file messages, protoscan scalar reads, encoding/binary integers; followed through locals, arithmetic, conversions and parameters) has that quantity bounded from both sides by constants on every path, and the size arithmetic, evaluated over intervals in the Go types of its sub-expressions, can neither wrap nor go negative nor reach 2^31: otherwise a damaged size field panics in makeslice inside a goroutine of the decoder. " +
+			"(E12) the readers the blob-data function drains are traced back (locals, parameters, results, standard wrappers) to the constructor calls outside the module; a decompressor constructor must be in the table of implementations whose Read terminates when the compressed stream has ended and input is left over (compress/zlib, compress/flate): decided per build configuration, keyed on the function holding the constructor call and the resolved constructor. " +
+			"(E14) every HasNext() test of a column iterator in the decoding goroutines is the condition of a loop that reads that column, or its exhausted outcome ends in an error on every path: the per-element reads of the other columns are guarded by presence only, so a column that is shorter than the one driving the element loop ends the scan in the iterator's error instead of being treated like an absent column. " +
+			"(E13) the pipeline's context is cancelled only by the serializer (on its way out, after forwarding) and by the consumer side, never by the reader or a worker: every stage drops what it holds once the context is done, so an upstream cancel loses the intact blocks still in flight in front of the error and the error itself. " +
 			"NOT decided: that the delivered prefix is correct (C01/C02), behaviour inside protoscan/protobuf/zlib (including whether a decoding library could itself return io.EOF), hangs inside libraries, memory exhaustion from huge declared sizes, column-length mismatches that neither index out of range nor exhaust an iterator, numeric thresholds other than the constant bounds of E3 and the `raw_size + c` form of E4.",
 		Assumptions: []string{"go/types, go/cfg (x/tools v0.29.0)",
 			"protoscan.Iterator.Count(WireTypeVarint) >= number of successful varint reads of that iterator; an exhausted iterator returns an error (read in protoscan v0.2.1 iterator.go/scalar.go)",
@@ -45,10 +49,14 @@ func init() {
 			{ID: "E7", Floor: 12, Doc: "no panic / unchecked type assertion reachable from the goroutine roles", Run: c06E7},
 			{ID: "E8", Floor: 2, Doc: "Err maps only io.EOF to nil", Run: c06E8},
 			{ID: "E10", Floor: 18, Doc: "a group or element that lacks a column is never decoded from an iterator that survives from an earlier group: presence of mandatory columns is established per message, not from cached state (shared with C01.R2)", Run: c01R2},
+			{ID: "E11", Floor: 1, Doc: "allocation sizes that derive from decoded quantities are bounded from both sides and their arithmetic cannot wrap", Run: c06E11},
+			{ID: "E12", Floor: 1, Doc: "the decompressor drained for the blob data comes from an implementation known to stop at the end of the compressed stream (one obligation per constructor and build configuration)", Run: c06E12},
+			{ID: "E14", Floor: 4, Doc: "a column iterator's HasNext is only a loop condition over that column, or its exhausted outcome is an error: a column that runs out early is not treated as absent", Run: c06E14},
+			{ID: "E13", Floor: 1, Doc: "the reader and the workers never cancel the pipeline: results in flight in front of an error are not dropped", Run: c06E13},
 			{ID: "E9", Floor: 6, Doc: "string references are checked against the current block's string table: cached block parameters are reset before each block (shared with C01.R3)", Run: c01R3},
 		},
-		Benign: append(append(append(append(append([]core.Mutant{}, c06Benign...), c06Benign2...), c06Benign3...), c06Benign4...), c06Benign5...),
-		Mutants: append(append(append([]core.Mutant{}, c06Mutants2...), c06Mutants3...), []core.Mutant{
+		Benign: append(append(append(append(append(append(append([]core.Mutant{}, c06Benign...), c06Benign2...), c06Benign3...), c06Benign4...), c06Benign5...), c06Benign6...), c06Benign7...),
+		Mutants: append(append(append(append(append([]core.Mutant{}, c06Mutants2...), c06Mutants3...), c06Mutants4...), c06Mutants5...), []core.Mutant{
 			{Name: "drop-iterator-error", File: "osmpbf/decode_data.go", Find: "\t\t\tdec.lats, err = msg.Iterator(dec.lats)\n\t\t\tfoundLats = true", Replace: "\t\t\tdec.lats, _ = msg.Iterator(dec.lats)\n\t\t\tfoundLats = true", ExpectRule: "E1", ExpectConstruct: "scanDenseNodes"},
 			{Name: "drop-msg-err", File: "osmpbf/decode_data.go", Find: "\tif msg.Err() != nil {\n\t\treturn msg.Err()\n\t}\n\n\t// we need the offsets", Replace: "\t// we need the offsets", ExpectRule: "E1", ExpectConstruct: "scanPrimitiveBlock"},
 			{Name: "overwrite-err-before-test", File: "osmpbf/decode_data.go", Find: "\t\t\tdec.vals, err = msg.Iterator(dec.vals)\n\t\t\tfoundVals = true\n\t\tcase 4: // info\n\t\t\td, err := msg.MessageData()\n\t\t\tif err != nil {\n\t\t\t\treturn nil, err\n\t\t\t}\n\n\t\t\tinfo := protoscan.New(d)\n\t\t\tfor info.Next() {\n\t\t\t\tswitch info.FieldNumber() {\n\t\t\t\tcase 1:\n\t\t\t\t\tv, err := info.Int32()\n\t\t\t\t\tif err != nil {\n\t\t\t\t\t\treturn nil, err\n\t\t\t\t\t}\n\t\t\t\t\tway.Version", Replace: "\t\t\tdec.vals, err = msg.Iterator(dec.vals)\n\t\t\tfoundVals = true\n\t\t\terr = nil\n\t\tcase 4: // info\n\t\t\td, err := msg.MessageData()\n\t\t\tif err != nil {\n\t\t\t\treturn nil, err\n\t\t\t}\n\n\t\t\tinfo := protoscan.New(d)\n\t\t\tfor info.Next() {\n\t\t\t\tswitch info.FieldNumber() {\n\t\t\t\tcase 1:\n\t\t\t\t\tv, err := info.Int32()\n\t\t\t\t\tif err != nil {\n\t\t\t\t\t\treturn nil, err\n\t\t\t\t\t}\n\t\t\t\t\tway.Version", ExpectRule: "E1", ExpectConstruct: "scanWays"},
@@ -346,6 +354,8 @@ func c06E1(r *core.R) {
 					return c01U
 				})
 				okAll := true
+				// when Next() was evaluated at all, the operands to its left in the condition held (`err == nil && msg.Next()`)
+				c06KnownNil = c06NilFacts(info, c06ShortCircuitFacts(f.par, nextCall))
 				for si, s := range blk.Succs {
 					if (si == 0 && v == c01F) || (si == 1 && v == c01T) {
 						continue
@@ -354,6 +364,7 @@ func c06E1(r *core.R) {
 						okAll = false
 					}
 				}
+				c06KnownNil = nil
 				if okAll {
 					r.OK(c, cond.Pos(), "when %s.Next() reports no further field, every path looks at %s.Err() before leaving the function (or its caller does) or resetting the message", msgObj.Name(), msgObj.Name())
 				} else {
@@ -422,12 +433,20 @@ func c06PathWithoutErrLook(p *core.Program, f *c01Fn, b0 *cfg.Block, i0 int, msg
 	}
 	seen := map[*cfg.Block]bool{}
 	work := []st{{b0, i0}}
+	assigned := map[types.Object]bool{} // variables assigned somewhere on the paths walked so far
 	for len(work) > 0 {
 		cur := work[len(work)-1]
 		work = work[:len(work)-1]
 		stopped := false
 		for i := cur.i; i < len(cur.b.Nodes); i++ {
 			n := cur.b.Nodes[i]
+			if as, isAs := n.(*ast.AssignStmt); isAs {
+				for _, l := range as.Lhs {
+					if o := objOf(info, l); o != nil {
+						assigned[o] = true
+					}
+				}
+			}
 			if c06IsErrLook(p, f, n, msgObj, depth) {
 				stopped = true
 				break
@@ -445,6 +464,16 @@ func c06PathWithoutErrLook(p *core.Program, f *c01Fn, b0 *cfg.Block, i0 int, msg
 		}
 		if stopped {
 			continue
+		}
+		// a branch on the nil-ness of a variable whose nil-ness is known (and that was not assigned on the way)
+		if depth == 0 && len(c06KnownNil) > 0 && len(cur.b.Succs) == 2 {
+			if pruned, only := c06KnownBranch(f, cur.b, assigned); pruned {
+				if !seen[only] {
+					seen[only] = true
+					work = append(work, st{only, 0})
+				}
+				continue
+			}
 		}
 		if len(cur.b.Succs) == 0 {
 			if !c01IsNormalExit(f, cur.b) {
